@@ -31,6 +31,19 @@ DOCS = {
     "second.md": "Title\n=====\n\nAnother   paragraph with   extra spaces, a `code span`, and \"quotes\"... done. Short one.\n\n* a\n* b\n\n## Ends with heading\n",
     "third.md": "| a | b |\n|---|---|\n| c | d |\n\nAfter the table comes text that should keep its blank line.\n\n* * *\n\n[ref]: http://x.y \"T\"\n\nUse [ref].\n",
 }
+# documents judged as raw bytes: what a file holds and what arrives on stdin are the same bytes, so every entry point must
+# give the result for the text that Path.read_text() makes of them (UTF-8, universal newlines)
+RAW_DOCS = {
+    "crlf.md": "First paragraph, line one\r\nline two of it.\r\n\r\nSecond \"paragraph\"... here.\r\n\r\n- a\r\n- b\r\n",
+    "bom.md": "\ufeff# Heading after a byte order mark\n\nSome text that is long enough to be wrapped at the narrow widths, really.\n",
+    "cr.md": "Old Mac line ends\rsecond line.\r\rNext paragraph.\r",
+}
+
+
+def as_read(raw: str) -> str:
+    return raw.replace("\r\n", "\n").replace("\r", "\n")
+
+
 WIDTHS = [0, 20, 88]
 FLAGS = ["plaintext", "semantic", "cleanups", "smartquotes", "ellipses"]
 SPACINGS = ["preserve", "loose", "tight"]
@@ -56,7 +69,7 @@ def argv_of(o):
 class C15(Prop):
     id = "C15"
     rule = ("cases: the complete product of 288 option points x 3 probe documents (each option changes at least one of them; "
-            "one CRLF variant) x {file->stdout, stdin->stdout, stdin->-o, --inplace, --inplace --nobackup, several files->stdout, "
+            "CRLF / lone-CR / BOM documents given as the same bytes in a file and on stdin) x {file->stdout, stdin->stdout, stdin->-o, --inplace, --inplace --nobackup, several files->stdout, "
             "several files --inplace} through cli.main in-process, reformat_file and reformat_text; --auto against its spelled-out "
             "flags; 6 usage errors; a stratified sample of real subprocess runs of both executables. Non-trivial: the option "
             "point changes the output of the probe document relative to the defaults or the mode writes a file; distinct by "
@@ -200,6 +213,19 @@ class C15(Prop):
             r = fm.call(self.api.reformat_file, os.path.join(d3, name), None, inplace=True, nobackup=True, **kw)
             ok("file-api-inplace", name, self.read(d3, name) if not isinstance(r, fm.Raised) else f"<{r.text}>", exp[name])
             shutil.rmtree(d3, ignore_errors=True)
+            shutil.rmtree(d, ignore_errors=True)
+        # raw-byte documents (CRLF, lone CR, BOM): file and stdin hold the same bytes
+        for name, raw in RAW_DOCS.items():
+            want = self.expected(as_read(raw), o)
+            if not isinstance(want, str):
+                continue
+            d = self.fresh({name: raw})
+            rc, out, err = self.main(a + [name], d)
+            ok("file->stdout/raw", name, out if rc == 0 else f"<exit {rc}: {err[:80]}>", want)
+            rc, out, err = self.main(a + ["-"], d, stdin=raw)
+            ok("stdin->stdout/raw", name, out if rc == 0 else f"<exit {rc}: {err[:80]}>", want)
+            rc, out, err = self.main(a + ["--inplace", "--nobackup", name], d)
+            ok("inplace/raw", name, self.read(d, name) if rc == 0 else f"<exit {rc}>", want)
             shutil.rmtree(d, ignore_errors=True)
         # CRLF input that is already canonical: still LF everywhere
         name = "probe.md"
